@@ -5,9 +5,12 @@ package main
 // from the dominator tree plus "monotone flag" phis (DESIGN 2.2, A.1).
 
 import (
+	"fmt"
 	"go/constant"
 	"go/token"
 	"go/types"
+	"sort"
+	"strings"
 
 	"golang.org/x/tools/go/ssa"
 )
@@ -1354,4 +1357,117 @@ func (ff *FuncFacts) EdgeInfeasible(pred, blk *ssa.BasicBlock) bool {
 		}
 	}
 	return false
+}
+
+// ---- path-sensitive reachability ---------------------------------------------
+
+// canReachFeasible: `to` can be reached from the beginning of block start
+// (entered from pred, which may be nil) without executing an instruction of
+// avoid, along a path that is consistent with the constants it assigns to
+// merged flags on its way: when the path enters a block over an edge that
+// gives a bool / error / pointer phi a constant (true, false, nil, a boxed
+// value), a later branch on that phi can only go the matching way.
+func canReachFeasible(start, pred *ssa.BasicBlock, to ssa.Instruction, avoid map[ssa.Instruction]bool) bool {
+	type env map[*ssa.Phi]int // 1 true/nil, 2 false/non-nil
+	sig := func(b *ssa.BasicBlock, e env) string {
+		var ks []string
+		for p, v := range e {
+			ks = append(ks, fmt.Sprintf("%p=%d", p, v))
+		}
+		sort.Strings(ks)
+		return fmt.Sprintf("%p|%s", b, strings.Join(ks, ","))
+	}
+	seen := map[string]bool{}
+	enter := func(from, b *ssa.BasicBlock, e env) env {
+		ne := env{}
+		for k, v := range e {
+			ne[k] = v
+		}
+		if from == nil {
+			return ne
+		}
+		idx := -1
+		for i, p := range b.Preds {
+			if p == from {
+				idx = i
+			}
+		}
+		for _, in := range b.Instrs {
+			phi, ok := in.(*ssa.Phi)
+			if !ok {
+				break
+			}
+			delete(ne, phi)
+			if idx < 0 || idx >= len(phi.Edges) {
+				continue
+			}
+			switch x := phi.Edges[idx].(type) {
+			case *ssa.Const:
+				if x.Value != nil && x.Value.Kind() == constant.Bool {
+					if constant.BoolVal(x.Value) {
+						ne[phi] = 1
+					} else {
+						ne[phi] = 2
+					}
+				} else if x.IsNil() {
+					ne[phi] = 1
+				}
+			case *ssa.MakeInterface:
+				ne[phi] = 2
+			case *ssa.Phi:
+				if v, ok := ne[x]; ok {
+					ne[phi] = v
+				}
+			}
+		}
+		return ne
+	}
+	var walk func(b *ssa.BasicBlock, e env) bool
+	walk = func(b *ssa.BasicBlock, e env) bool {
+		k := sig(b, e)
+		if seen[k] || len(seen) > 4000 {
+			return false
+		}
+		seen[k] = true
+		for _, in := range b.Instrs {
+			if in == to {
+				return true
+			}
+			if avoid[in] {
+				return false
+			}
+		}
+		succs := b.Succs
+		if i := blockIf(b); i != nil && len(b.Succs) == 2 {
+			cond, pol := stripNot(i.Cond, true)
+			known := 0
+			if phi, ok := cond.(*ssa.Phi); ok {
+				known = e[phi]
+			} else if x, isNil, ok := FactNilCmp(Fact{cond, true}); ok {
+				if phi, isPhi := x.(*ssa.Phi); isPhi && e[phi] != 0 {
+					// cond is "x == nil" (isNil) or "x != nil"
+					if (e[phi] == 1) == isNil {
+						known = 1
+					} else {
+						known = 2
+					}
+				}
+			}
+			if known != 0 {
+				condTrue := known == 1
+				if condTrue == pol {
+					succs = b.Succs[:1]
+				} else {
+					succs = b.Succs[1:2]
+				}
+			}
+		}
+		for _, s := range succs {
+			if walk(s, enter(b, s, e)) {
+				return true
+			}
+		}
+		return false
+	}
+	return walk(start, enter(pred, start, env{}))
 }
